@@ -14,14 +14,55 @@ TRUSTED_BASE = [
     'modelled, not verified: sync.Mutex (mutual exclusion), atomicity of channel close/receive, Go memory model; '
     'Message/Model.v + Message/Conc.v are hand-written from message/message.go and tied to it by this check',
     'the comparison of the exhaustive sweep is done in Python on numbers printed by Coq (Corr.C03.sweep) and by the harness',
-    'Message/Monitor.v lin_ok (interval linearizability acceptor used on implementation histories) is an executable oracle; '
-    'its agreement with the textbook definition is argued in its header, not proved',
+    'Message/Monitor.v lin_ok (interval linearizability acceptor used on implementation histories) accepts the stamped call history of every quiescent '
+    'state of the thread-level model (Props/C03.v C03_lin_ok_model_accepted); the converse (that it rejects every non-linearizable history) is argued in its header, not proved',
+    'Message/World.v (Copy, metadata maps as references, contexts) is hand-written from message.go and tied to it by the c03world programs; '
+    'strings are interned as u<N>/k<N>/v<N>, payload bytes are immutable in the model (Copy() shares the slice)',
 ]
 ASSUMPTIONS = [
     '"no call blocks" is a 2 s / 5 s watchdog on the implementation and totality of [step] in the model',
     'data races are outside the model; the thorough tier runs the concurrent scenarios under -race '
     '(without channel reads on zero-value messages, where Acked() racing Ack is a race by construction)',
 ]
+
+WORLD_HEADER = 'From WM Require Import Base.Prelude Message.Model Message.World Corr.C03World.\n'
+
+def wop_term(o):
+    k = o['op']
+    if k == 0: return '(WNew %s %s)' % (C.coq_N(o['a']), C.coq_list([C.coq_N(b) for b in o.get('payload') or []]))
+    if k == 1: return 'WZero'
+    if k == 2: return '(WCopy %d)' % o['i']
+    if k == 3: return '(WSettle %d %s)' % (o['i'], OP[o['a']])
+    if k == 4: return '(WMetaSet %d %s %s)' % (o['i'], C.coq_N(o['a']), C.coq_N(o['b']))
+    if k == 5: return '(WMetaGet %d %s)' % (o['i'], C.coq_N(o['a']))
+    if k == 6: return '(WSetCtx %d %s)' % (o['i'], C.coq_N(o['a']))
+    if k == 7: return '(WGetCtx %d)' % o['i']
+    return '(WContent %d)' % o['i']
+
+def wres_term(r):
+    k = r[0]
+    if k == 'id': return '(WId %d)' % r[1]
+    if k == 'res': return '(WRes %s)' % RES[min(r[1], 4)]
+    if k == 'unit': return 'WUnit'
+    if k == 'val': return '(WVal %s)' % C.coq_N(r[1])
+    if k == 'cont': return '(WCont %s %s)' % (C.coq_N(r[1]), C.coq_list([C.coq_N(b) for b in r[2] or []]))
+    return 'WPanic'
+
+WOPN = ['NewMessage', '&Message{}', 'Copy', 'settle', 'Metadata.Set', 'Metadata.Get', 'SetContext', 'Context', 'UUID+Payload']
+def describe_world(c):
+    return dict(program=[[WOPN[o['op']], o['i'], (OPN[o['a']] if o['op'] == 3 else o['a']), o['b']] for o in c['ops']], results=c['res'])
+
+def check_world_cases(pid, name, cases, res, what):
+    for part, chunk in enumerate(C.chunks(cases, 300)):
+        terms = C.coq_list(['(%s, %s)' % (C.coq_list([wop_term(o) for o in c['ops']]), C.coq_list([wres_term(r) for r in c['res']])) for c in chunk])
+        r = C.coq_eval(pid, '%s_%d' % (name, part), WORLD_HEADER + 'Definition cases : list world_case := %s.\n' % terms,
+                       [('R_mis', 'world_mismatches cases'), ('R_vio', 'world_violations cases')])
+        for i in r['R_vio']:
+            res.violations.append(dict(signature='C03/world-first-wins', what='a message of a multi-message program (%s) is not a first-wins state machine on its own Ack/Nack/read calls' % what,
+                                       case=describe_world(chunk[i])))
+        for i in r['R_mis']:
+            res.mismatches.append(dict(kind='Corr.C03World.world_mismatch (Message/World.v wrun vs message.go NewMessage/Copy/Ack/Nack/Metadata/SetContext/Context) on ' + what,
+                                       explained_by_violation=i in r['R_vio'], case=describe_world(chunk[i])))
 
 def enumerate_ops(n):
     out = []
@@ -249,6 +290,33 @@ def run(ctx, conc_cases=None, seed_offset=0):
     except Exception as e:   # the driver itself hung: some Ack/Nack call never returned
         cp = dict(copies=0, blocked=1, wrong=0, detail='the copy-under-contention driver did not finish within 120 s (%s)' % str(e)[:120])
     res.evaluations += cp['copies']; res.count('copies taken under contention', cp['copies'])
+    # every distinct history observed on a copy, as a program of Message/World.v projected onto the copy
+    # (Props/C03.v C03_settlement_is_per_message: what the racing goroutines do to the source is irrelevant for the copy)
+    cpcases = []
+    for key in sorted((cp.get('outcomes') or {})):
+        ack, ok, ca, cn = [int(x) for x in key.split()]
+        cpcases.append(dict(ops=[dict(op=0, i=0, a=1, b=0, payload=[112]), dict(op=2, i=0, a=0, b=0), dict(op=3, i=1, a=(0 if ack else 1), b=0),
+                                 dict(op=3, i=1, a=2, b=0), dict(op=3, i=1, a=3, b=0)],
+                            res=[['id', 0], ['id', 1], ['res', ok], ['res', 2 if ca else 3], ['res', 2 if cn else 3]]))
+    if cpcases:
+        check_world_cases(pid, 'copyrace', cpcases, res, 'a Copy() taken while two goroutines settle the source')
+        res.count('distinct histories of copies taken under contention', len(cpcases))
+    # ---- worlds of several messages: NewMessage / zero value / Copy() of messages in any state / settle calls / metadata / contexts
+    wd, _ = C.run_harness(binary, ['c03world', '-cases', '400' if tier == 'quick' else '4000', '-seed', str(seed)], pid, 'c03world.json', timeout=120)
+    check_world_cases(pid, 'world', wd, res, 'NewMessage, zero values, Copy(), settle calls, metadata writes and contexts interleaved')
+    res.evaluations += len(wd); res.count('multi-message programs (Copy / metadata / context)', len(wd))
+    ncopy = 0
+    for c in wd:
+        settled_before_copy = False; settled = set()
+        for o in c['ops']:
+            if o['op'] == 3 and o['a'] < 2: settled.add(o['i'])
+            if o['op'] == 2 and o['i'] in settled: settled_before_copy = True
+        if settled_before_copy:
+            ncopy += 1
+            res.nontrivial.add(('world', tuple((o['op'], o['i'], o['a']) for o in c['ops'])))
+    res.count('... of which copy an already settled message', ncopy)
+    if wd:
+        res.sample(dict(kind='multi-message program', **describe_world(wd[0])), limit=4)
     if cp['blocked']:
         res.violations.append(dict(signature='C03/call-does-not-return-on-copy', what='a call on a fresh Copy() did not return: ' + cp.get('detail', ''), case=cp))
     if cp['wrong']:
